@@ -12,8 +12,8 @@ func hashIntArray(in []int) int {
 		binary.LittleEndian.PutUint64(tmp[i*8:i*8+8], uint64(in[i]))
 	}
 	h := fnv.New64a()
-	v, _ := h.Write(tmp)
-	return v
+	h.Write(tmp)
+	return int(h.Sum64())
 }
 
 // func hashIntArrayPair(in1, in2 []int) int {
